@@ -13,6 +13,8 @@
 # See the License for the specific language governing permissions and
 # limitations under the License.
 
+import re
+import sys
 import typing
 from typing import Optional, Tuple, Any, Type, Dict, Callable, Union
 
@@ -147,7 +149,12 @@ class Instruction(_mixins.DictMixin, _mixins.RegisterMixin, _mixins.CodeMixin):
     @staticmethod
     def _param_repr(value: Any) -> str:
         if isinstance(value, np.ndarray):
-            return "np." + repr(value)
+            # NOTE: The default `repr` of an array is lossy (8 digits, elision of large
+            # arrays) and writes the dtype without the `np.` prefix.
+            with np.printoptions(floatmode="unique", threshold=sys.maxsize):
+                array_repr = repr(value)
+
+            return "np." + re.sub(r"dtype=([a-z]+[0-9]*)", r"dtype=np.\1", array_repr)
 
         return value
 
